@@ -169,6 +169,9 @@ impl Gossip {
             ));
         }
 
+        #[cfg(p2panda_p2panda_verif)]
+        crate::verif::point("gossip.stream.join");
+
         // If there's no active handle for this topic we join the overlay from scratch.
         let inner = self.inner.read().await;
 
@@ -348,6 +351,18 @@ impl GossipHandle {
     pub fn topic(&self) -> Topic {
         self.topic
     }
+
+    /// Sender of the channel all subscriptions of this handle receive from.
+    #[cfg(p2panda_p2panda_verif)]
+    pub fn verif_from_gossip_tx(&self) -> broadcast::Sender<Vec<u8>> {
+        self.from_gossip_tx.clone()
+    }
+
+    /// Current value of the reference counter for this topic.
+    #[cfg(p2panda_p2panda_verif)]
+    pub fn verif_counter(&self) -> usize {
+        self._guard.counter()
+    }
 }
 
 /// A handle to an ephemeral messaging stream subscription.
@@ -437,6 +452,9 @@ impl TopicDropGuard {
     /// Returns `None` if the last reference has been dropped already (the unsubscribe request for
     /// this topic is or will be on its way). Check and increment happen atomically.
     fn clone_if_subscribed(&self) -> Option<Self> {
+        #[cfg(p2panda_p2panda_verif)]
+        crate::verif::point("gossip.stream.checked");
+
         self.counter
             .fetch_update(
                 std::sync::atomic::Ordering::SeqCst,
@@ -496,6 +514,9 @@ impl Drop for TopicDropGuard {
             return;
         }
 
+        #[cfg(p2panda_p2panda_verif)]
+        crate::verif::point("guard.drop.before_sub");
+
         // Check if we can unsubscribe from topic if all handles and subscriptions have been
         // dropped for it.
         let previous_counter = self
@@ -519,6 +540,9 @@ impl Drop for TopicDropGuard {
                 actor_id = %self.actor_ref.get_id(),
                 "send unsubscribe message"
             );
+
+            #[cfg(p2panda_p2panda_verif)]
+            crate::verif::point("guard.drop.before_unsubscribe");
 
             // Ignore this error, it could be that the actor has already stopped.
             let _ = self
